@@ -7,8 +7,8 @@ Open Scope Z_scope.
 
 Definition vrows (a : arch) : list (format * Z) :=
   match a with
-  | GCN3 => [(F_VOP2, 0); (F_VOP2, 6); (F_VOP2, 8); (F_VOP2, 12); (F_VOP2, 13); (F_VOP2, 14); (F_VOP2, 15); (F_VOP2, 16); (F_VOP2, 17); (F_VOP2, 18); (F_VOP2, 19); (F_VOP2, 20); (F_VOP2, 21); (F_VOP2, 25); (F_VOP2, 26); (F_VOP2, 27); (F_VOP2, 28); (F_VOP2, 29); (F_VOP2, 30); (F_VOP1, 1); (F_VOP1, 43); (F_VOP1, 44); (F_VOPC, 193); (F_VOPC, 195); (F_VOPC, 196); (F_VOPC, 197); (F_VOPC, 198); (F_VOPC, 201); (F_VOPC, 202); (F_VOPC, 203); (F_VOPC, 204); (F_VOPC, 205); (F_VOPC, 206); (F_VOP3A, 193); (F_VOP3A, 195); (F_VOP3A, 196); (F_VOP3A, 198); (F_VOP3A, 201); (F_VOP3A, 202); (F_VOP3A, 203); (F_VOP3A, 204); (F_VOP3A, 205); (F_VOP3A, 206); (F_VOP3A, 256); (F_VOP3A, 450); (F_VOP3A, 451); (F_VOP3A, 456); (F_VOP3A, 457); (F_VOP3A, 465); (F_VOP3A, 466); (F_VOP3A, 468); (F_VOP3A, 469); (F_VOP3A, 471); (F_VOP3A, 472); (F_VOP3A, 645); (F_VOP3A, 646); (F_VOP3B, 281); (F_VOP3B, 282); (F_VOP3B, 283); (F_VOP3B, 284); (F_VOP3B, 285); (F_VOP3B, 286)]
-  | CDNA3 => [(F_VOP2, 0); (F_VOP2, 6); (F_VOP2, 8); (F_VOP2, 12); (F_VOP2, 13); (F_VOP2, 14); (F_VOP2, 15); (F_VOP2, 16); (F_VOP2, 17); (F_VOP2, 18); (F_VOP2, 19); (F_VOP2, 20); (F_VOP2, 21); (F_VOP2, 25); (F_VOP2, 26); (F_VOP2, 27); (F_VOP2, 28); (F_VOP2, 29); (F_VOP2, 30); (F_VOP2, 52); (F_VOP2, 53); (F_VOP2, 54); (F_VOP1, 1); (F_VOP1, 43); (F_VOP1, 44); (F_VOP1, 45); (F_VOPC, 193); (F_VOPC, 195); (F_VOPC, 196); (F_VOPC, 197); (F_VOPC, 198); (F_VOPC, 201); (F_VOPC, 202); (F_VOPC, 203); (F_VOPC, 204); (F_VOPC, 205); (F_VOPC, 206); (F_VOP3A, 193); (F_VOP3A, 195); (F_VOP3A, 196); (F_VOP3A, 198); (F_VOP3A, 201); (F_VOP3A, 202); (F_VOP3A, 203); (F_VOP3A, 204); (F_VOP3A, 205); (F_VOP3A, 206); (F_VOP3A, 256); (F_VOP3A, 450); (F_VOP3A, 451); (F_VOP3A, 456); (F_VOP3A, 457); (F_VOP3A, 465); (F_VOP3A, 466); (F_VOP3A, 468); (F_VOP3A, 469); (F_VOP3A, 471); (F_VOP3A, 472); (F_VOP3A, 645); (F_VOP3A, 646); (F_VOP3A, 509); (F_VOP3A, 510); (F_VOP3A, 511); (F_VOP3A, 512); (F_VOP3B, 281); (F_VOP3B, 282); (F_VOP3B, 283); (F_VOP3B, 284); (F_VOP3B, 285); (F_VOP3B, 286)]
+  | GCN3 => [(F_VOP2, 0); (F_VOP2, 6); (F_VOP2, 8); (F_VOP2, 12); (F_VOP2, 13); (F_VOP2, 14); (F_VOP2, 15); (F_VOP2, 16); (F_VOP2, 17); (F_VOP2, 18); (F_VOP2, 19); (F_VOP2, 20); (F_VOP2, 21); (F_VOP2, 25); (F_VOP2, 26); (F_VOP2, 27); (F_VOP2, 28); (F_VOP2, 29); (F_VOP2, 30); (F_VOP1, 1); (F_VOP1, 43); (F_VOP1, 44); (F_VOPC, 193); (F_VOPC, 195); (F_VOPC, 196); (F_VOPC, 197); (F_VOPC, 198); (F_VOPC, 201); (F_VOPC, 202); (F_VOPC, 203); (F_VOPC, 204); (F_VOPC, 205); (F_VOPC, 206); (F_VOP3A, 193); (F_VOP3A, 195); (F_VOP3A, 196); (F_VOP3A, 198); (F_VOP3A, 201); (F_VOP3A, 202); (F_VOP3A, 203); (F_VOP3A, 204); (F_VOP3A, 205); (F_VOP3A, 206); (F_VOP3A, 256); (F_VOP3A, 450); (F_VOP3A, 451); (F_VOP3A, 456); (F_VOP3A, 457); (F_VOP3A, 465); (F_VOP3A, 466); (F_VOP3A, 468); (F_VOP3A, 469); (F_VOP3A, 471); (F_VOP3A, 472); (F_VOP3A, 645); (F_VOP3A, 646); (F_VOP3B, 281); (F_VOP3B, 282); (F_VOP3B, 283); (F_VOP3B, 284); (F_VOP3B, 285); (F_VOP3B, 286); (F_VOP1, 45); (F_VOP3A, 462)]
+  | CDNA3 => [(F_VOP2, 0); (F_VOP2, 6); (F_VOP2, 8); (F_VOP2, 12); (F_VOP2, 13); (F_VOP2, 14); (F_VOP2, 15); (F_VOP2, 16); (F_VOP2, 17); (F_VOP2, 18); (F_VOP2, 19); (F_VOP2, 20); (F_VOP2, 21); (F_VOP2, 25); (F_VOP2, 26); (F_VOP2, 27); (F_VOP2, 28); (F_VOP2, 29); (F_VOP2, 30); (F_VOP2, 52); (F_VOP2, 53); (F_VOP2, 54); (F_VOP1, 1); (F_VOP1, 43); (F_VOP1, 44); (F_VOP1, 45); (F_VOPC, 193); (F_VOPC, 195); (F_VOPC, 196); (F_VOPC, 197); (F_VOPC, 198); (F_VOPC, 201); (F_VOPC, 202); (F_VOPC, 203); (F_VOPC, 204); (F_VOPC, 205); (F_VOPC, 206); (F_VOP3A, 193); (F_VOP3A, 195); (F_VOP3A, 196); (F_VOP3A, 198); (F_VOP3A, 201); (F_VOP3A, 202); (F_VOP3A, 203); (F_VOP3A, 204); (F_VOP3A, 205); (F_VOP3A, 206); (F_VOP3A, 256); (F_VOP3A, 450); (F_VOP3A, 451); (F_VOP3A, 456); (F_VOP3A, 457); (F_VOP3A, 465); (F_VOP3A, 466); (F_VOP3A, 468); (F_VOP3A, 469); (F_VOP3A, 471); (F_VOP3A, 472); (F_VOP3A, 645); (F_VOP3A, 646); (F_VOP3A, 509); (F_VOP3A, 510); (F_VOP3A, 511); (F_VOP3A, 512); (F_VOP3B, 281); (F_VOP3B, 282); (F_VOP3B, 283); (F_VOP3B, 284); (F_VOP3B, 285); (F_VOP3B, 286); (F_VOP3A, 462); (F_VOP3A, 276); (F_VOP2, 38); (F_VOP2, 42); (F_VOPC, 164)]
   end.
 
 Lemma row_agree : forall a f op, row_ok a f op ->
@@ -94,6 +94,8 @@ Proof.
   - row_case r_g_vop3b_284.
   - row_case r_g_vop3b_285.
   - row_case r_g_vop3b_286.
+  - row_case r_g_vop1_45.
+  - row_case r_g_vop3a_462.
   - row_case r_c_vop2_0.
   - row_case r_c_vop2_6.
   - row_case r_c_vop2_8.
@@ -164,6 +166,11 @@ Proof.
   - row_case r_c_vop3b_284.
   - row_case r_c_vop3b_285.
   - row_case r_c_vop3b_286.
+  - row_case r_c_vop3a_462.
+  - row_case r_c_vop3a_276.
+  - row_case r_c_vop2_38.
+  - row_case r_c_vop2_42.
+  - row_case r_c_vopc_164.
 Qed.
 
 (** V_READFIRSTLANE_B32: the scalar destination receives the source of the
